@@ -62,7 +62,8 @@ def interpLine (j : JState) (tr : Tracer) (toks : List String) : Tracer × Strin
       let env : IEnv JState :=
         { code := code, input := input, vals := envValOf vals code input, abort := false,
           table := fun op => (arr.getD op none),
-          mkEnv := fun w mem => { w.env with mem := mem, memCap := mem.length } }
+          mkEnv := fun w mem => { w.env with mem := mem, memCap := mem.length },
+          keccak := fun b => (alookup b j.kmap).getD 0 }
       let s0 : IState JState :=
         { stack := [], mem := [], pc := 0, gas := gas, rdata := [], readOnly := false, world := j, tr := tr, last := 0 }
       if code.isEmpty then (tr, s!"|halt:ok:{hexNat gas}:x")
